@@ -212,7 +212,8 @@ def _absorb(out, res, by_id, seen_reg, pending, chunk, max_paths, on_record):
         r["errors"].append(out["error"])
     for rec in out["records"]:
         r["npaths"] += 1
-        if rec["status"] == "violation" and not _is_known(rec):
+        if (rec["status"] == "violation" and not _is_known(rec)) or rec["status"] == "unknown":
+            # an obligation the solver could not decide is a candidate too (it is replayed with generic values); it already makes the run non-zero
             r["nviol"] += 1
             _TOTAL_VIOL[0] += 1
             if r["nviol"] >= MAX_VIOL_PER_JOB and _STOP is not None and job.get("_idx") is not None:
